@@ -46,6 +46,8 @@ impl OperationControl for Capture {
         matcher: &'a ReMatcher<'a>,
         position: usize,
     ) -> Box<dyn Iterator<Item = usize> + 'a> {
+        #[cfg(feature = "verif-hooks")]
+        crate::verif::step(crate::verif::site::CAPTURE_ENTER);
         if (matcher.program.optimization_flags & OPT_HASBACKREFS) != 0 {
             matcher.set_start_backref(self.group_nr, Some(position));
         }
